@@ -188,6 +188,12 @@ def build_model(cfg, faults=(), allow_first=False, keep_log=True):
     if cfg.get('record_psd'):
         m.setPSDrecording(True)
     m.setThermodynamics(backend, removeCache=cfg.get('removeCache', False))
+    if cfg.get('sibling'):
+        # a second model configured (never solved) AFTER this one and before this one is solved: configure A, configure B, solve A
+        try:
+            build_model(cfg['sibling'], keep_log=False)
+        except Exception:  # noqa
+            pass
     return m, backend
 
 
@@ -380,6 +386,12 @@ def gen_run_record(rng, real_frac=0.15, real_kinds=('real_alzr', 'real_alzr', 'r
             # history of the process: another model with the same phase/element names but other parameters was set up first;
             # the model under test must not inherit anything from it (shared default objects, module-level caches)
             cfg['pre'] = gen_stub_config(rng, nel=len(cfg['elements']))
+        elif rng.random() < 0.12:
+            sib = gen_stub_config(rng, nel=len(cfg['elements']))
+            # the sibling always differs in its temperature specification
+            Ts = cfg['T']['T'] + rng.choice([-40, 25, 60]) if cfg['T']['kind'] == 'const' else cfg['T']['temps'][0] - 35
+            sib['T'] = rng.choice([{'kind': 'const', 'T': Ts}, {'kind': 'array', 'times': [0.0, 1e-5], 'temps': [Ts, Ts + 30]}])
+            cfg['sibling'] = sib
         return {'cfg': cfg, 'ops': ops, 'cap': cap}
     kind = rng.choice(list(real_kinds))
     cfg = real_config(kind, rng)
@@ -410,8 +422,9 @@ def shrink_run_record(rec):
     if rec.get('cap', 0) > 20:
         r = copy.deepcopy(rec); r['cap'] = max(10, rec['cap'] // 2); yield r
     cfg = rec['cfg']
-    if cfg.get('pre'):
-        r = copy.deepcopy(rec); del r['cfg']['pre']; yield r
+    for key in ('pre', 'sibling'):
+        if cfg.get(key):
+            r = copy.deepcopy(rec); del r['cfg'][key]; yield r
     if len(cfg['phases']) > 1 and not cfg['backend'].startswith('real_'):
         for drop in cfg['phases']:
             r = copy.deepcopy(rec)
